@@ -94,9 +94,10 @@ class ScriptEngine(Engine):
         except Exception as exc:  # an internal error is still "fails with an error" for C01; C11 judges the type
             return Outcome("rejected", message=f"{type(exc).__name__}: {exc}"[:200], probes={"rejected_internal": 1})
 
+        host_script = case.get("host_script", script)
         host_runs = []
         for world in worlds:
-            h = run_host(script, world, int(world.get("passes", 1)))
+            h = run_host(host_script, world, int(world.get("passes", 1)))
             if h.error is not None:
                 probes["host_error"] = probes.get("host_error", 0) + 1
                 continue
@@ -115,7 +116,7 @@ class ScriptEngine(Engine):
                 # "well defined" has to hold for N >= 1 passes too, otherwise a name that is only
                 # undefined inside the never-executed main loop would count as an accepted script
                 probe_world = dict(host_runs[0][0], passes=max(2, int(host_runs[0][0].get("passes", 0))))
-                if run_host(script, probe_world, probe_world["passes"]).error is not None:
+                if run_host(host_script, probe_world, probe_world["passes"]).error is not None:
                     return Outcome("discard", message="script not well defined for N>=1", probes=probes)
                 return Outcome(
                     "violation",
@@ -311,3 +312,116 @@ class E1Core(ScriptEngine):
             passes = rng.choice([0, 1, 2, 3, max_pass])
             worlds.append(random_world(rng, script, passes))
         return {"script": script, "worlds": worlds, "features": sorted(gen.features_used)}
+
+
+class E2Actuators(ScriptEngine):
+    """C04: actuator operation histories, literal and run-time arguments, getter probes."""
+
+    name = "e2-actuators"
+    property_id = "C04"
+    rule = (
+        "seeded operation histories (1-14 ops) over 1-5 declared Led/RGBLed/Servo/DCMotor devices, arguments as "
+        "literals, variables or potentiometer-derived run-time values, boundary-biased, a getter probe after "
+        "every op, 2-3 seeded worlds x 0-6 passes; non-trivial = board drove at least one pin/servo; distinct = "
+        "digest of the per-channel observable trace"
+    )
+
+    def duty_tol(self, case: dict):
+        return {f"pin:{p}": 1 for p in case.get("duty_pins", [])}
+
+    def generate(self, rng, tier: str, avoid) -> dict:
+        from dst.gen.actuators import ActGen
+        from dst.gen.programs import random_world
+
+        gen = ActGen(rng, avoid, tier)
+        script = gen.generate()
+        worlds = []
+        for _ in range(rng.choice([2, 3])):
+            passes = rng.choice([0, 1, 2, 3, 4 if tier == "quick" else 6])
+            worlds.append(random_world(rng, script, passes))
+        return {"script": script, "worlds": worlds, "duty_pins": gen.duty_pins, "features": sorted(gen.features_used)}
+
+    def extra_board_checks(self, case, world, bt, ht):
+        # clamp monitor: nothing outside the documented limits ever reaches a pin
+        for _t, _phase, kind, rest in bt.raw:
+            if kind == "AW":
+                pin, value = rest.split()
+                if not 0 <= int(value) <= 255:
+                    return Outcome("violation", cls="clamp/aw", message=f"analogWrite({pin}, {value}) outside 0-255")
+        return None
+
+
+class E2Clamp(E2Actuators):
+    """C04 (clamping): out-of-range commands on the board vs the documented limit on the host."""
+
+    name = "e2-clamp"
+    rule = (
+        "as e2-actuators, but ~45% of the numeric arguments are out of range (literal or through a variable); "
+        "the board runs the raw script, the host reference the same script with each such value replaced by "
+        "the documented limit; plus a monitor that no analogWrite/servo command leaves the limits"
+    )
+
+    def generate(self, rng, tier: str, avoid) -> dict:
+        from dst.gen.actuators import ActGen
+        from dst.gen.programs import random_world
+
+        gen = ActGen(rng, avoid, tier, clamp=True)
+        text = gen.generate()
+        worlds = []
+        for _ in range(2):
+            worlds.append(random_world(rng, text, rng.choice([0, 1, 2, 3])))
+        servo_bounds = {
+            str(d["pin"]): [d["amin"], d["amax"], d["pmin"], d["pmax"]] for d in gen.devices.values() if d["kind"] == "servo"
+        }
+        return {
+            "script": ActGen.render(text, "board"),
+            "host_script": ActGen.render(text, "host"),
+            "worlds": worlds,
+            "duty_pins": gen.duty_pins,
+            "servo_bounds": servo_bounds,
+        }
+
+    def extra_board_checks(self, case, world, bt, ht):
+        out = super().extra_board_checks(case, world, bt, ht)
+        if out is not None:
+            return out
+        bounds = case.get("servo_bounds") or {}
+        for name, obs in bt.channels.items():
+            if not name.startswith("servo:"):
+                continue
+            b = bounds.get(name.split(":")[1])
+            if not b:
+                continue
+            for o in obs:
+                op, value = o.value
+                lo, hi = (b[0], b[1]) if op == "WRITE" else (b[2], b[3])
+                if not lo <= value <= hi:
+                    return Outcome("violation", cls="clamp/servo", message=f"servo {name} {op} {value} outside [{lo}, {hi}]")
+        return None
+
+    def shrink_candidates(self, case):
+        # both scripts must shrink in lockstep: delete the same line index in both
+        board_lines = case["script"].splitlines()
+        host_lines = case["host_script"].splitlines()
+        if len(board_lines) != len(host_lines):
+            return
+        for cand in super().shrink_candidates({**case, "script": case["script"]}):
+            if cand["script"] == case["script"]:
+                cand["host_script"] = case["host_script"]
+                yield cand
+                continue
+            kept = cand["script"].splitlines()
+            # recover which lines were dropped by aligning on the board text
+            idx, host_kept, ok = 0, [], True
+            for line in kept:
+                while idx < len(board_lines) and board_lines[idx].strip() != line.strip():
+                    idx += 1
+                if idx >= len(board_lines):
+                    ok = False
+                    break
+                indent = len(line) - len(line.lstrip(" "))
+                host_kept.append(" " * indent + host_lines[idx].strip())
+                idx += 1
+            if ok:
+                cand["host_script"] = "\n".join(host_kept) + "\n"
+                yield cand
